@@ -91,7 +91,8 @@ func VF_C16_Append() {
 	vf.Assert("witness", false)
 }
 
-// VF_C16_Ignore: ignore lists by id and by offset filter exactly the named entries.
+// VF_C16_Ignore: every ignore list (any subset of the stored entries, by id or by offset) combined with every read
+// offset: the result is exactly the entries from position o onward, in order, minus the ignored ones.
 func VF_C16_Ignore() {
 	data, lock := vfPath()
 	os.Remove(data)
@@ -102,39 +103,43 @@ func VF_C16_Ignore() {
 		return
 	}
 	const k = 3
-	var sent [k]storage.Message
 	for i := 0; i < k; i++ {
 		msgs := []storage.Message{{DkgRoundID: "round", Event: "e", SenderAddr: "user" + strconv.Itoa(i), Data: []byte("d")}}
 		if err := w.Send(msgs...); err != nil {
 			vf.Unreachable("send")
 			return
 		}
-		sent[i] = msgs[0]
 	}
-	victim := vf.Choose("victim", k)
+	all, _ := w.GetMessages(0)
+	if len(all) != k {
+		vf.Unreachable("read")
+		return
+	}
+	subset := vf.Choose("ignored-subset", 1<<k)
 	byOffset := vf.Choose("by-offset", 2) == 1
-	if byOffset {
-		_ = w.IgnoreMessages([]string{strconv.Itoa(victim)}, true)
-	} else {
-		all, _ := w.GetMessages(0)
-		if len(all) != k {
-			vf.Unreachable("read")
-			return
-		}
-		_ = w.IgnoreMessages([]string{all[victim].ID}, false)
-	}
-	got, err := w.GetMessages(0)
-	vf.Assert("ignore-lists:read", err == nil)
-	vf.Assert("ignore-lists:count", len(got) == k-1)
-	j := 0
+	var names []string
 	for i := 0; i < k; i++ {
-		if i == victim {
-			continue
+		if subset&(1<<uint(i)) != 0 {
+			if byOffset {
+				names = append(names, strconv.Itoa(i))
+			} else {
+				names = append(names, all[i].ID)
+			}
 		}
-		if j < len(got) {
-			vf.Assert("ignore-lists:others-kept-in-order", got[j].SenderAddr == "user"+strconv.Itoa(i))
+	}
+	_ = w.IgnoreMessages(names, byOffset)
+	o := vf.Choose("read-offset", k+1)
+	got, err := w.GetMessages(uint64(o))
+	vf.Assert("ignore-lists:read", err == nil)
+	var want []int
+	for i := o; i < k; i++ {
+		if subset&(1<<uint(i)) == 0 {
+			want = append(want, i)
 		}
-		j++
+	}
+	vf.Assert("ignore-lists:count", len(got) == len(want))
+	for j := 0; j < len(got) && j < len(want); j++ {
+		vf.Assert("ignore-lists:exactly-the-others-in-order", vf.And(got[j].SenderAddr == "user"+strconv.Itoa(want[j]), got[j].Offset == uint64(want[j])))
 	}
 	w.UnignoreMessages()
 	got, _ = w.GetMessages(0)
